@@ -364,7 +364,10 @@ print(json.dumps({'rcs':rcs,'t':lib.h_sys_get_t(p),'y':list(y)}))
     for stepper in range(6):
         for adaptive in ((1, 0) if stepper < 5 else (1,)):
             cfg = dict(nx=nx, d=d, nrho=nrho, nsc=nsc, ti=ti, y0=list(y0), mask=mask_set, order=order, adaptive=adaptive, nsteps=400, stepper=stepper, dts=dts, which=which_, on=on_)
-            p = subprocess.run([sys.executable, '-c', code, so, json.dumps(cfg)], capture_output=True, text=True, timeout=300)
+            try:
+                p = subprocess.run([sys.executable, '-c', code, so, json.dumps(cfg)], capture_output=True, text=True, timeout=300)
+            except subprocess.TimeoutExpired:
+                return True, 'the native run does not finish within 300 s (the integration never converges)'
             if p.returncode != 0 or not p.stdout.strip():
                 return True, 'native run crashed (stepper %d adaptive %d): %s' % (stepper, adaptive, p.stderr[-200:])
             res = json.loads(p.stdout.strip().split('\n')[-1])
